@@ -60,6 +60,8 @@ func checkC05(c *Ctx) {
 	c.Rule("R5.2", "every Enabled pre-check guarding a logging call in a front end is legal (level < DPanic) and asks the live core", 9)
 	c.Rule("R5.3", "reported level: Level() = LevelOf(wrapped); tee min-fold seeded with InvalidLevel; LevelOf scans the whole range ascending", 9)
 	c.Rule("R5.4", "NewIncreaseLevelCore validates over the whole level range and builds the core only on success", 2)
+	c.Rule("R5.11", "the IncreaseLevel option always asks for the filter core and installs it whenever it was built (equal levels now do not make the filter a no-op later)", 1)
+	c5IncreaseOption(c, "R5.11")
 	c.Rule("R5.5", "CheckedEntry.Write in front ends only under ce != nil", 8)
 	c.Rule("R5.6", "AtomicLevel: a single atomic, read afresh by Enabled, written only by Store", 3)
 
@@ -1220,4 +1222,88 @@ func c5PointerStable(c *Ctx, rule string) {
 			})
 		}
 	}
+}
+
+// c5IncreaseOption: by path exploration of the option zap.IncreaseLevel returns (its function literal, helpers inline,
+// the constructor's outcome forked): on every path NewIncreaseLevelCore is called on the logger's current core and the
+// given enabler; when it succeeded the logger's core is replaced by exactly that result, when it failed the core is
+// left alone. A shortcut that skips the filter (because the levels are equal at the time the option is applied, say)
+// lets a later change of a shared AtomicLevel, or a non-monotone enabler, deliver entries the filter would have stopped.
+func c5IncreaseOption(c *Ctx, rule string) {
+	fn := c.Func(ZapPath, "IncreaseLevel")
+	ctor := c.Func(CorePath, "NewIncreaseLevelCore")
+	if !c.Anchor(rule, "zap.IncreaseLevel / zapcore.NewIncreaseLevelCore", fn != nil && ctor != nil) {
+		return
+	}
+	// the function literal the option wraps
+	var lit *ssa.Function
+	for _, f := range fn.AnonFuncs {
+		if len(f.Params) == 1 && strings.HasSuffix(TypeName(f.Params[0].Type()), "zap.Logger") {
+			lit = f
+		}
+	}
+	if !c.Anchor(rule, "the func(*Logger) literal of zap.IncreaseLevel", lit != nil) {
+		return
+	}
+	logP := lit.Params[0]
+	resolve := func(st *ConcState, v ssa.Value) ssa.Value {
+		for k := 0; k < 12; k++ {
+			nx := st.Step(v)
+			if nx == nil {
+				break
+			}
+			v = nx
+		}
+		return v
+	}
+	var theCall *ssa.Call
+	seqs, trunc := ConcPaths(lit, ConcCfg{
+		Fork: func(in ssa.Instruction, st *ConcState) []ConcAlt {
+			x, ok := in.(*ssa.Extract)
+			if !ok || x.Index != 1 {
+				return nil
+			}
+			if cl, isC := x.Tuple.(*ssa.Call); isC && cl.Call.StaticCallee() == ctor {
+				return []ConcAlt{{Ev: "built", Nils: map[ssa.Value]bool{x: true}}, {Ev: "refused", Nils: map[ssa.Value]bool{x: false}}}
+			}
+			return nil
+		},
+		Event: func(in ssa.Instruction, st *ConcState) string {
+			switch x := in.(type) {
+			case *ssa.Call:
+				if x.Call.StaticCallee() == ctor && len(x.Call.Args) == 2 {
+					theCall = x
+					a0 := resolve(st, x.Call.Args[0])
+					okCore := false
+					if ld, isLd := a0.(*ssa.UnOp); isLd {
+						if fa, isFA := ld.X.(*ssa.FieldAddr); isFA && fieldName(fa.X.Type(), fa.Field) == "core" && resolve(st, fa.X) == ssa.Value(logP) {
+							okCore = true
+						}
+					}
+					if okCore {
+						return "ask"
+					}
+					return "ask?" + st.Desc(x.Call.Args[0])
+				}
+			case *ssa.Store:
+				if fa, ok := x.Addr.(*ssa.FieldAddr); ok && fieldName(fa.X.Type(), fa.Field) == "core" && resolve(st, fa.X) == ssa.Value(logP) {
+					v := resolve(st, x.Val)
+					if ex, isEx := v.(*ssa.Extract); isEx && ex.Index == 0 && theCall != nil && ex.Tuple == ssa.Value(theCall) {
+						return "install"
+					}
+					return "install?" + st.Desc(x.Val)
+				}
+			case *ssa.Return:
+				return "ret"
+			}
+			return ""
+		},
+	})
+	var bad []string
+	for _, sq := range seqs {
+		if sq != "ask ; built ; install ; ret" && sq != "ask ; refused ; ret" {
+			bad = append(bad, sq)
+		}
+	}
+	c.Check(!trunc && len(seqs) >= 2 && len(bad) == 0, rule, fn.String(), "always-filters", fn.Pos(), "every path of the option asks NewIncreaseLevelCore(log.core, lvl) and installs the result exactly when it was built (%d paths; offending: %v)", len(seqs), bad)
 }
